@@ -124,6 +124,13 @@ def flow() -> Route:
     return Route(nlri, AttributeCollection(), nexthop=IP.NoNextHop)
 
 
+def _netmask(netmask: str, maximum: int) -> int:
+    mask = int(netmask)
+    if not 0 <= mask <= maximum:
+        raise ValueError(f"'{netmask}' is not a valid netmask\n  Must be 0 to {maximum}")
+    return mask
+
+
 def source(tokeniser: 'Tokeniser') -> Generator[Flow4Source | Flow6Source, None, None]:
     """Update source to handle both IPv4 and IPv6 flows."""
     data: str = tokeniser()
@@ -134,18 +141,20 @@ def source(tokeniser: 'Tokeniser') -> Generator[Flow4Source | Flow6Source, None,
         ip, netmask = data.split('/')
         raw: bytes = b''.join(bytes([int(_)]) for _ in ip.split('.'))
         tokeniser.afi = AFI.ipv4
-        yield Flow4Source.make_prefix4(raw, int(netmask))
+        yield Flow4Source.make_prefix4(raw, _netmask(netmask, 32))
     # Check if it's IPv6 without an offset
     elif data.count(':') >= IPv6.COLON_MIN and data.count('/') == SINGLE_SLASH:
         ip, netmask = data.split('/')
         tokeniser.afi = AFI.ipv6
-        yield Flow6Source.make_prefix6(IP.pton(ip), int(netmask), 0)
+        yield Flow6Source.make_prefix6(IP.pton(ip), _netmask(netmask, 128), 0)
     # Check if it's IPv6 with an offset
     elif data.count(':') >= IPv6.COLON_MIN and data.count('/') == DOUBLE_SLASH:
         offset: str
         ip, netmask, offset = data.split('/')
         tokeniser.afi = AFI.ipv6
-        yield Flow6Source.make_prefix6(IP.pton(ip), int(netmask), int(offset))
+        yield Flow6Source.make_prefix6(IP.pton(ip), _netmask(netmask, 128), _netmask(offset, 128))
+    else:
+        raise ValueError(f"'{data}' is not a valid flow prefix\n  Format: <ipv4>/<mask>, <ipv6>/<mask> or <ipv6>/<mask>/<offset>")
 
 
 def destination(tokeniser: 'Tokeniser') -> Generator[Flow4Destination | Flow6Destination, None, None]:
@@ -158,18 +167,20 @@ def destination(tokeniser: 'Tokeniser') -> Generator[Flow4Destination | Flow6Des
         ip, netmask = data.split('/')
         raw: bytes = b''.join(bytes([int(_)]) for _ in ip.split('.'))
         tokeniser.afi = AFI.ipv4
-        yield Flow4Destination.make_prefix4(raw, int(netmask))
+        yield Flow4Destination.make_prefix4(raw, _netmask(netmask, 32))
     # Check if it's IPv6 without an offset
     elif data.count(':') >= IPv6.COLON_MIN and data.count('/') == SINGLE_SLASH:
         ip, netmask = data.split('/')
         tokeniser.afi = AFI.ipv6
-        yield Flow6Destination.make_prefix6(IP.pton(ip), int(netmask), 0)
+        yield Flow6Destination.make_prefix6(IP.pton(ip), _netmask(netmask, 128), 0)
     # Check if it's IPv6 with an offset
     elif data.count(':') >= IPv6.COLON_MIN and data.count('/') == DOUBLE_SLASH:
         offset: str
         ip, netmask, offset = data.split('/')
         tokeniser.afi = AFI.ipv6
-        yield Flow6Destination.make_prefix6(IP.pton(ip), int(netmask), int(offset))
+        yield Flow6Destination.make_prefix6(IP.pton(ip), _netmask(netmask, 128), _netmask(offset, 128))
+    else:
+        raise ValueError(f"'{data}' is not a valid flow prefix\n  Format: <ipv4>/<mask>, <ipv6>/<mask> or <ipv6>/<mask>/<offset>")
 
 
 # Expressions
